@@ -50,7 +50,8 @@ def robustness_inputs(ctx, n):
         out.append(("valid", p.encode()))
     from gen.snippets import corpus
     from gen.declforms import corpus as declforms
-    snippets = [t for _, t in corpus() if 'R"' not in t] + [l for _, l in declforms()[::7]]
+    from gen.snippets import extension_corpus
+    snippets = [t for _, t in corpus() if 'R"' not in t] + [l for _, l in declforms()[::7]] + [t for _, t in extension_corpus()] * 3
     while len(out) < n:
         p = rng.choice(progs)
         k = rng.randrange(11)
